@@ -20,7 +20,8 @@ const verif::Info verif_info = {
     "C17", 400,
     "generated format calls (gen/gen_format.h: 1..5 fields, 1..5 arguments of 32 types, literals of whole scalars incl. 2/3/4-byte characters and brace escapes, widths/precisions <= 400 "
     "so padding runs cross every internal buffer size; 1 in 16 deliberately ill-formed; 1 in 12 truncated or with an argument dropped so that every sink must fail alike) plus "
-    "floating-point fields, each sent to seven sinks: ST::format (default validation and assume_valid), ST::printf(FILE* = open_memstream), ST::writef(std::ostringstream), "
+    "floating-point fields, 1 in 8 with a 1-6 KB text argument or literal carrying a multi-unit character at a byte offset around 1000/1024/2048/4096/6144 or a padding run of 31..16385 "
+    "characters, 1 in 5 with the std streams in a non-default pre-state (pending width, fill, adjustfield, basefield/showbase/showpos), each sent to seven sinks: ST::format (default validation and assume_valid), ST::printf(FILE* = open_memstream), ST::writef(std::ostringstream), "
     "ST::format_latin_1, ST::writef to wchar_t / char16_t / char32_t string streams, and the _stfmt literal. Oracle: narrow sinks byte-identical to each other and (when modelled) "
     "to the ref/ref_format.h rendering; format_latin_1 == reference Latin-1->UTF-8 of those bytes; wide sinks == reference UTF-32/16 transcoding of those bytes, compared when "
     "ST::format accepts the call; same exception kind for rejected calls. Stream insertion: os << ST::string (scalars incl. NUL, all size classes) into the four stream types == "
@@ -97,7 +98,19 @@ bool piece_splits_character(const ref::Result &want) {
     return false;
 }
 
+// Pre-state of the target std streams: a pending width, a fill character and formatting flags must not change what
+// ST::writef writes (it writes unformatted).  0 = pristine stream.
+template <class S> void prestate(S &s, int pre) {
+    typedef typename S::char_type C;
+    if (!pre) return;
+    if (pre & 1) s.width(8);
+    if ((pre & 2) && (std::is_same<C, char>::value || std::is_same<C, wchar_t>::value)) s.fill((C)'*');   // libstdc++ has no ctype<char16_t/char32_t>: fill() would throw bad_cast there
+    if (pre & 4) s.setf(std::ios_base::left, std::ios_base::adjustfield);
+    if (pre & 8) { s.setf(std::ios_base::hex, std::ios_base::basefield); s.setf(std::ios_base::showbase | std::ios_base::uppercase | std::ios_base::showpos); }
+}
+
 struct FormatCase {
+    int pre = 0;                // stream pre-state (see prestate)
     std::string fmt; std::vector<fg::Value> args; std::vector<ref::Arg> rargs;
     bool modelled = true;       // ref::interpret's rendering is authoritative (no float)
     bool split_possible = true; // pieces might split a character (decided from the reference boundaries)
@@ -122,7 +135,7 @@ std::string check_sinks(const FormatCase &k, Case &c, bool &nontrivial) {
         if (err) throw std::runtime_error("FILE* error indicator set");
     });
     Out<char> os = guard<char>([&](std::string &o) {
-        std::ostringstream s;
+        std::ostringstream s; prestate(s, k.pre);
         with_args(args, [&](const auto &...x) { ST::writef(s, fs, x...); });
         if (!s.good()) throw std::runtime_error("narrow ostream not good() after writef");
         o = s.str();
@@ -130,9 +143,9 @@ std::string check_sinks(const FormatCase &k, Case &c, bool &nontrivial) {
     Out<char> udl = guard<char>([&](std::string &o) { with_args(args, [&](const auto &...x) { ST::string s = ST::literals::operator""_stfmt(fs, k.fmt.size())(x...); o.assign(s.c_str(), s.size()); }); });
     Out<char> l1 = guard<char>([&](std::string &o) { with_args(args, [&](const auto &...x) { ST::string s = ST::format_latin_1(fs, x...); o.assign(s.c_str(), s.size()); }); });
     bool bad_w = false, bad_16 = false, bad_32 = false;
-    Out<wchar_t> ww = guard<wchar_t>([&](std::wstring &o) { std::wostringstream s; with_args(args, [&](const auto &...x) { ST::writef(s, fs, x...); }); bad_w = !s.good(); o = s.str(); });
-    Out<char16_t> w16 = guard<char16_t>([&](std::u16string &o) { std::basic_ostringstream<char16_t> s; with_args(args, [&](const auto &...x) { ST::writef(s, fs, x...); }); bad_16 = !s.good(); o = s.str(); });
-    Out<char32_t> w32 = guard<char32_t>([&](std::u32string &o) { std::basic_ostringstream<char32_t> s; with_args(args, [&](const auto &...x) { ST::writef(s, fs, x...); }); bad_32 = !s.good(); o = s.str(); });
+    Out<wchar_t> ww = guard<wchar_t>([&](std::wstring &o) { std::wostringstream s; prestate(s, k.pre); with_args(args, [&](const auto &...x) { ST::writef(s, fs, x...); }); bad_w = !s.good(); o = s.str(); });
+    Out<char16_t> w16 = guard<char16_t>([&](std::u16string &o) { std::basic_ostringstream<char16_t> s; prestate(s, k.pre); with_args(args, [&](const auto &...x) { ST::writef(s, fs, x...); }); bad_16 = !s.good(); o = s.str(); });
+    Out<char32_t> w32 = guard<char32_t>([&](std::u32string &o) { std::basic_ostringstream<char32_t> s; prestate(s, k.pre); with_args(args, [&](const auto &...x) { ST::writef(s, fs, x...); }); bad_32 = !s.good(); o = s.str(); });
     ww.stream_bad = bad_w; w16.stream_bad = bad_16; w32.stream_bad = bad_32;
 
     // --- sinks that do not validate: printf, narrow writef, format(assume_valid), format_latin_1 must end the same way
@@ -177,14 +190,18 @@ std::string check_sinks(const FormatCase &k, Case &c, bool &nontrivial) {
     if (nonascii) c.label("format:non-ascii-output");
     if (padded) c.label("format:padded");
     // --- wide sinks
+    // open finding F17-1 is identified by this predicate alone: only a failure of a call of this class carries the marker that
+    // known_findings.json matches, so any other wide-sink disagreement is reported as a violation
+    std::string mark;
     if (k.split_possible && want.kind == ref::OK && piece_splits_character(want)) {
         c.label("format:piece-boundary-inside-character");
         if (!kIncludeKnown) { c.excluded_known++; return std::string(); }
+        mark = "[F17-1: a piece boundary lies inside a multi-byte character] ";
     }
     std::string why;
-    if (!(why = compare_wide("ST::writef(std::wostringstream)", ww, raw)).empty()) return why;
-    if (!(why = compare_wide("ST::writef(basic_ostringstream<char16_t>)", w16, raw)).empty()) return why;
-    if (!(why = compare_wide("ST::writef(basic_ostringstream<char32_t>)", w32, raw)).empty()) return why;
+    if (!(why = compare_wide("ST::writef(std::wostringstream)", ww, raw)).empty()) return mark + why;
+    if (!(why = compare_wide("ST::writef(basic_ostringstream<char16_t>)", w16, raw)).empty()) return mark + why;
+    if (!(why = compare_wide("ST::writef(basic_ostringstream<char32_t>)", w32, raw)).empty()) return mark + why;
     return std::string();
 }
 
@@ -286,10 +303,29 @@ void sweep_build(const SweepPoint &p, FormatCase &k) {
     k.modelled = true; k.split_possible = false;
 }
 
+// A long text piece: `at` ASCII bytes, then one multi-unit character, then a short tail; as an argument of type ty[tyi] or as a literal.
+const uint32_t kLongWide[] = {0xE9, 0x20AC, 0x1F600, 0x10FFFF, 0x7FF, 0x800};
+const uint16_t kLongBases[] = {1000, 1020, 1024, 2040, 2048, 3000, 4090, 4096, 5000, 6144, 8192, 16384};
+const fg::Ty kLongTypes[] = {fg::T_CSTR, fg::T_STSTRING, fg::T_STDSTRING, fg::T_SV, fg::T_WCSTR, fg::T_U16STRING, fg::T_U32SV, fg::T_U8STRING};
+void add_long_piece(FormatCase &k, size_t at, uint32_t wch, size_t tail, int tyi) {      // tyi < 0: literal
+    std::vector<uint32_t> cps(at, 'a');
+    for (size_t i = 7; i < cps.size(); i += 61) cps[i] = ' ';
+    cps.push_back(wch);
+    for (size_t i = 0; i < tail; i++) cps.push_back(i % 9 == 4 ? wch : 'z');
+    if (tyi >= 0) {
+        fg::Value v; v.set_text(kLongTypes[tyi % 8], cps);
+        k.args.push_back(std::move(v)); k.rargs.push_back(k.args.back().to_ref());
+        k.fmt += "{&" + std::to_string(k.args.size()) + "}";
+    } else {
+        for (uint32_t cp : cps) k.fmt += ref::utf8_of(cp);
+    }
+}
+
 void render_format_case(const FormatCase &k, Case &c) {
     c.text = "C17 sinks(" + verif::quoted(k.fmt, 160) + (k.args.empty() ? "" : ", ");
     for (size_t i = 0; i < k.args.size(); i++) { if (i) c.text += ", "; c.text += k.args[i].show(); }
     c.text += ")";
+    if (k.pre) c.text += " stream-pre-state=" + std::to_string(k.pre);
 }
 
 }  // namespace
@@ -297,13 +333,19 @@ void render_format_case(const FormatCase &k, Case &c) {
 int verif_case(const uint8_t *data, size_t size, Case &c) {
     verif::Reader r(data, size, c);
     uint8_t first = r.u8();
-    if (first == 0xFF || first == 0xFD || first < 170) {
+    if (first == 0xFF || first == 0xFD || first == 0xFC || first < 170) {
         FormatCase k;
         if (first == 0xFF) {
             int q[7]; for (int i = 0; i < 7; i++) q[i] = (int)(r.u8() % kSweepDims[i]);
             SweepPoint p = {q[0], q[1], q[2], q[3], q[4], q[5], q[6]};
             sweep_build(p, k);
             c.label("directed-sweep-point");
+        } else if (first == 0xFC) {              // directed: one point of the long-piece sweep
+            unsigned bi = r.u8() % 12, off = r.u8() % 9, wi = r.u8() % 6, ti = r.u8() % 9, tail = r.u8() % 41;
+            k.fmt = ti == 8 ? "" : "[";
+            add_long_piece(k, (size_t)kLongBases[bi] + off - 4, kLongWide[wi], tail, ti == 8 ? -1 : (int)ti);
+            k.fmt += "]";
+            c.label("directed-long-piece");
         } else if (first == 0xFD) {              // directed: the saved inputs of open finding F17-1
             unsigned which = r.u8() % 2;
             k.args.resize(1);
@@ -339,6 +381,28 @@ int verif_case(const uint8_t *data, size_t size, Case &c) {
             k.fmt += fg::print_spec(sp, &r);
             for (uint32_t cp : l2) { if (cp == '{' || cp == '}') continue; k.fmt += ref::utf8_of(cp); }
             k.modelled = false; k.split_possible = false;
+        }
+        if (first >= 8 && first < 140 && k.args.size() <= 4) {
+            // extras layered over a generated call (bytes read AFTER the call so that existing inputs decode as before)
+            unsigned x = (unsigned)r.range(0, 15);
+            if (x == 1 || x == 2) {                 // a long text piece: 1..16 KB of ASCII with one 2-/3-/4-byte character at a chosen byte offset
+                size_t at = (size_t)r.pick(kLongBases) + (size_t)r.range(0, 8) - 4;
+                uint32_t wch = r.pick(kLongWide);
+                size_t tail = r.range(0, 40);
+                add_long_piece(k, at, wch, tail, x == 1 ? (int)r.idx(8) : -1);
+                c.label(x == 1 ? "format:long-text-argument" : "format:long-literal");
+            } else if (x == 3) {                    // a padding run of a power-of-two-ish length (and one off)
+                static const uint16_t runs[] = {31, 32, 33, 63, 64, 65, 255, 256, 257, 1023, 1024, 1025, 4095, 4096, 4097, 8191, 8192, 8193, 16384, 16385};
+                size_t run = r.pick(runs);
+                fg::Value v; std::vector<uint32_t> cps; size_t n = r.range(0, 3); for (size_t i = 0; i < n; i++) cps.push_back(i == 1 ? 0xE9 : 'q');
+                v.set_text(fg::T_CSTR, cps);
+                k.args.push_back(std::move(v)); k.rargs.push_back(k.args.back().to_ref());
+                size_t nat = k.args.back().utf8.size();
+                k.fmt += std::string("{&") + std::to_string(k.args.size()) + (r.flag() ? ">" : "<") + (r.flag() ? "_*" : "") + std::to_string(run + nat) + "}";
+                c.label("format:long-padding-run");
+            }
+            k.pre = r.chance(48) ? (int)r.range(1, 15) : 0;
+            if (k.pre) c.label("format:stream-pre-state");
         }
         if (c.want_text) render_format_case(k, c);
         bool nt = false;
@@ -441,6 +505,25 @@ long verif_enumerate(int shard, int nshards, int tier, verif::EnumReport &r) {
                 r.samples.push_back(c.text + " -> all 9 sinks agree");
             }
         }
+    }
+    // long-piece sweep: a multi-unit character at every byte offset within +-4 of 1000..16384 (block sizes an implementation may use)
+    {
+        long idx = 0;
+        for (unsigned bi = 0; bi < 12; bi++) for (unsigned off = 0; off < 9; off++) for (unsigned wi = 0; wi < 6; wi++) for (unsigned ti = 0; ti < 9; ti++, idx++) {
+            if (idx % nshards != shard) continue;
+            if (!tier && (ti % 3) != (bi + off) % 3) continue;          // quick tier: a third of the argument types per offset
+            uint8_t cur2[6] = {0xFC, (uint8_t)bi, (uint8_t)off, (uint8_t)wi, (uint8_t)ti, (uint8_t)(3 + (bi + off) % 5)};
+            verif::set_current(cur2, sizeof cur2);
+            FormatCase k; k.fmt = ti == 8 ? "" : "[";
+            add_long_piece(k, (size_t)kLongBases[bi] + off - 4, kLongWide[wi], cur2[5], ti == 8 ? -1 : (int)ti);
+            k.fmt += "]";
+            Case c; bool nt = false;
+            std::string why = check_sinks(k, c, nt);
+            r.evaluations++; r.nontrivial++;
+            if (!why.empty()) { c.want_text = true; c.text = "C17 long piece: " + std::to_string(kLongBases[bi] + off - 4) + " ASCII bytes then U+" + verif::hexs(&kLongWide[wi], 3) + (ti == 8 ? " as a literal" : std::string(" as ") + fg::ty_name(kLongTypes[ti]));
+                r.failure = why; r.failing_case = c.text; r.failing_bytes.assign(cur2, cur2 + sizeof cur2); return r.evaluations; }
+        }
+        if (shard == 0) r.exhausted.push_back("long-piece sweep: one 2-/3-/4-byte character (6 scalars) at byte offsets {1000,1020,1024,2040,2048,3000,4090,4096,5000,6144,8192,16384} -4..+4 of an ASCII text passed as 8 argument types or as a literal" + std::string(tier ? "" : " (a third of the types per offset in the quick tier)"));
     }
     if (shard == 0)
         r.exhausted.push_back("sink sweep: text of {a, U+E9, U+20AC, U+1F600, U+7FF, U+FFFF} x lengths {0,1,3,11,12,13,15,16,17} (6 argument types) x alignment {none,<,>} x pad {none,*,0} x "
